@@ -7,6 +7,8 @@ CHECK = {
     "parts": [
         {"name": "files", "pkg": "verifharness/prop/c09", "run": "^TestVerif_C09_Files$",
          "timeout": {"quick": 600, "thorough": 3600}},
+        {"name": "longfile", "pkg": "verifharness/prop/c09", "run": "^TestVerif_C09_LongFile$",
+         "timeout": {"quick": 600, "thorough": 3600}},
     ],
     "assumptions": [
         "the FLV v1 layout is the one in DESIGN.md section 6: tag type is a whole byte, flags use bits 0 and 2 only, stream id 0, PreviousTagSize = 11 + data size",
